@@ -12,7 +12,7 @@ open TLVerif.Util TLVerif.Prim
 
 /-- Values produced by the JSON reader of a TL2-enabled type can have a TL1 mask bit set while the hidden TL2
 presence bit is clear (`none` in `Val`); Go's TL1 writer then writes the zero value. Make that explicit. -/
-def fillTL1 (d : Desc) : Nat → Nat → List Nat → Val → Except CErr Val
+def jfillTL1 (d : Desc) : Nat → Nat → List Nat → Val → Except CErr Val
   | 0, _, _, _ => .error .fuel
   | fuel + 1, ty, params, v =>
     match d.get? ty, v with
@@ -27,7 +27,7 @@ def fillTL1 (d : Desc) : Nat → Nat → List Nat → Val → Except CErr Val
             match fieldPresent f fs params, natArgVals fs params f.natArgs with
             | some true, some na =>
               (match x with
-               | some y => (fillTL1 d fuel f.ty na y).map (fun y' => some y' :: rest)
+               | some y => (jfillTL1 d fuel f.ty na y).map (fun y' => some y' :: rest)
                | none =>
                  if f.isBit then .ok (some (.struct []) :: rest)
                  else match jzeroVal d fuel f.ty with
@@ -39,15 +39,15 @@ def fillTL1 (d : Desc) : Nat → Nat → List Nat → Val → Except CErr Val
       (go s.fields fs).map Val.struct
     | some (.union u), .union i x =>
       match u.variants[i]?, natArgVals [] params u.elemNatArgs with
-      | some (vi, _), some na => (fillTL1 d fuel vi na x).map (Val.union i)
+      | some (vi, _), some na => (jfillTL1 d fuel vi na x).map (Val.union i)
       | _, _ => .error .shape
     | some (.array a), .arr es =>
       match natArgVals [] params a.elem.natArgs with
-      | some na => (es.mapM (fillTL1 d fuel a.elem.ty na)).map Val.arr
+      | some na => (es.mapM (jfillTL1 d fuel a.elem.ty na)).map Val.arr
       | none => .error .desc
     | some (.dict a), .arr es =>
       match natArgVals [] params a.elem.natArgs with
-      | some na => (es.mapM (fillTL1 d fuel a.elem.ty na)).map Val.arr
+      | some na => (es.mapM (jfillTL1 d fuel a.elem.ty na)).map Val.arr
       | none => .error .desc
     | _, _ => .ok v
 
@@ -63,7 +63,7 @@ def originTL2 (d : Desc) (ty : Nat) : Bool :=
 def boxedOut (d : Desc) (fuel ty : Nat) (v : Val) : String :=
   if originTL2 d ty then "n/a" else
   if hasBoxed d ty then
-    match fillTL1 d fuel ty [] v with
+    match jfillTL1 d fuel ty [] v with
     | .ok v' => outBytes (writeTL1 d fuel ty false [] v')
     | .error e => "!" ++ errStr e
   else "n/a"
